@@ -48,7 +48,24 @@ func genC15(r *Rng, e *Emitter, n int) {
 		c, d := pt(), pt()
 		// the values are moved into long-lived buffers that the next case overwrites
 		defer0 := func() { a, b, c, d = slot(0, a...), slot(1, b...), slot(2, c...), slot(3, d...) }
-		switch r.Intn(9) {
+		switch r.Intn(10) {
+		case 9:
+			// a short segment seen from far away (its length a 10^-7 … 10^-12 part of the distance): the
+			// nearer of its ends, or the foot between them, is still what counts
+			M := math.Pow(10, float64(7+r.Intn(6)))
+			for k := 0; k < dim; k++ {
+				a[k] = math.Round((r.Float64()*2 - 1) * M)
+				b[k] = a[k] + float64(r.Intn(201)-100)
+				c[k] = float64(r.Intn(2001) - 1000)
+				d[k] = c[k] + float64(r.Intn(41)-20)
+			}
+			if a[0] == b[0] && a[1] == b[1] {
+				b[0]++
+			}
+			if r.chance(1, 2) {
+				a, b, c, d = c, d, a, b
+			}
+			e.tally("short-segment-far-away")
 		case 8:
 			// surveyed alignment: consecutive half-unit stretches of an almost straight line far from the
 			// origin, ordinates given to four decimal places (no binary fraction), lateral deviations of
